@@ -208,9 +208,9 @@ def stage_may_blocking():
     insert_before(f, '// panic happened here', '#[cfg(may_verif)]\ncrate::verif::co_resume(false, get_co_local(&co) as usize);')
     # labels (causal witnesses for oracles / known findings)
     L = lambda name, arg='0': '#[cfg(may_verif)]\ncrate::verif::label("%s", %s);' % (name, arg)
-    insert_after('src/park.rs', 'self.set_timeout_handle(timeout_handle);', L('park.subscribe.timer_armed'))
-    insert_after('src/park.rs', 'self.wait_co.store(co);', L('park.subscribe.stored'))
-    insert_before('src/scheduler.rs', 'if let Some(mut co) = c.take() {', L('timer.handler.take'))
+    insert_after('src/park.rs', 'self.set_timeout_handle(timeout_handle);', L('park.subscribe.timer_armed', 'Arc::as_ptr(&self.wait_co) as usize'))
+    insert_after('src/park.rs', 'self.wait_co.store(co);', L('park.subscribe.stored', 'Arc::as_ptr(&self.wait_co) as usize'))
+    insert_before('src/scheduler.rs', 'if let Some(mut co) = c.take() {', L('timer.handler.take', 'Arc::as_ptr(&c) as usize'))
     insert_after('src/sync/spsc.rs', 'wait_co.store(Blocker::new_coroutine(co));', L('spsc.subscribe.stored'))
     insert_before('src/sync/spsc.rs', 'self.channels.store(0, Ordering::Relaxed);', L('spsc.drop_chan'))
     insert_before('src/io/sys/unix/mod.rs', 'let event_data = unsafe { &mut *data.event_data };', L('io.timeout_handler.live'))
